@@ -45,6 +45,10 @@ type RCase struct {
 	Tail   []ROp    `json:"tail"`   // consumer ops executed after the cycle (close / later calls)
 	Closer int      `json:"closer"` // Close calls by a third goroutine
 	Sched  []byte   `json:"sched,omitempty"`
+	// Choices, when set, replaces Sched: the i-th scheduling decision releases
+	// parked[Choices[i]] (parked in actor order producer, consumer, closer;
+	// 0 once the list is used up). Used by the exhaustive enumeration.
+	Choices []int `json:"choices,omitempty"`
 }
 
 func streamFill(dst []byte, pos int64) {
@@ -81,6 +85,7 @@ type run struct {
 
 	produced, consumed atomic.Int64
 	closeStarted       atomic.Bool
+	consumerGaveUp     atomic.Bool
 	freeRun            atomic.Bool // controlled prefix is over: yields no longer park
 
 	mu       sync.Mutex
@@ -92,6 +97,7 @@ type run struct {
 	steps    int
 	trace    []string
 	liveness string
+	branch   []int // number of parked actors at each scheduling decision
 }
 
 func (r *run) failSafety(format string, a ...interface{}) {
@@ -419,10 +425,21 @@ func (r *run) consumer(a *actor) {
 		return false
 	}
 	if len(r.c.Cons) > 0 {
-		for guard := 0; r.consumed.Load() < r.total && guard < 1<<20; guard++ {
+		// the op list is cycled until everything committed was obtained; the
+		// loop gives up only when a whole cycle made no progress (a list without
+		// a consuming operation), and then the completeness verdict is skipped
+		idle, last := 0, r.consumed.Load()
+		for r.consumed.Load() < r.total {
 			op := r.c.Cons[i%len(r.c.Cons)]
 			i++
 			if exec(op, true) {
+				break
+			}
+			if now := r.consumed.Load(); now != last {
+				idle, last = 0, now
+			} else if idle++; idle > 2*len(r.c.Cons) {
+				r.consumerGaveUp.Store(true)
+				r.class("consumer-list-without-progress")
 				break
 			}
 		}
@@ -454,6 +471,7 @@ func (w *checkWriter) Write(p []byte) (int, error) {
 // ---- execution -------------------------------------------------------------------
 
 type outcome struct {
+	Branch       []int `json:"-"`
 	Safety       []string
 	Liveness     string // non-empty: an operation is blocked although the model says it must have returned
 	Inconclusive string
@@ -609,6 +627,7 @@ func execute(c RCase) outcome {
 		out.Classes = append(out.Classes, k)
 	}
 	out.Steps = r.steps
+	out.Branch = r.branch
 	out.Trace = r.trace
 	if len(out.Trace) > 80 {
 		out.Trace = append([]string{"..."}, out.Trace[len(out.Trace)-80:]...)
@@ -619,7 +638,7 @@ func execute(c RCase) outcome {
 			out.Liveness = fmt.Sprintf("all operations returned but an internal mutex stays locked (producer-side free=%v, consumer-side free=%v): a later call would block forever", pf, cf)
 		}
 		if !r.closeStarted.Load() && len(r.safety) == 0 {
-			if got := r.consumed.Load(); got != r.total && !r.cls["readfrom"] {
+			if got := r.consumed.Load(); got != r.total && !r.cls["readfrom"] && !r.consumerGaveUp.Load() {
 				r.failSafety("nothing closed the ring and all operations returned, yet the consumer obtained %d of the %d committed bytes", got, r.total)
 				out.Safety = r.safety
 			}
@@ -819,6 +838,15 @@ func (r *run) schedule(wg *sync.WaitGroup, out *outcome) {
 		}
 		si++
 		pick := parked[int(b)%len(parked)]
+		if r.c.Choices != nil {
+			b = 0
+			ch := 0
+			if si-1 < len(r.c.Choices) {
+				ch = r.c.Choices[si-1]
+			}
+			pick = parked[ch%len(parked)]
+			r.branch = append(r.branch, len(parked))
+		}
 		if b&0x80 != 0 {
 			// adversarial choice: keep actors that sit in a wait window (cursor read, not yet
 			// locked / about to wait) parked and run somebody else, if there is somebody else
@@ -1231,4 +1259,121 @@ func TestC15PingPong(t *testing.T) {
 		rec.Flush()
 		t.Fatalf("VIOLATION %s replay=%s", fails, p)
 	}
+}
+
+
+// ---- C15 unit "close-windows": exhaustive schedules of Close against blocked calls -----------
+//
+// Small configurations in which one or two calls must block (a write into a
+// ring without room, a wait for more data than there is), one or two Close
+// calls, and optionally a consumer step that frees too little. ALL schedules
+// over the yield points (entry of every blocking path before its lock is
+// taken, the point just before the condition wait, and the two points inside
+// Close) are enumerated depth-first; in each, every call must return.
+
+func closeWindowConfigs() []RCase {
+	const size = 16384
+	var out []RCase
+	add := func(c RCase) {
+		c.Mode, c.Size, c.Choices = "ctl", size, []int{}
+		out = append(out, c)
+	}
+	for _, closers := range []int{1, 2} {
+		// producer blocked: ring full / nearly full
+		for _, pre := range [][2]int{{size, 0}, {12000, 0}, {size, 3000}} {
+			free := size - (pre[0] - pre[1])
+			for _, k := range []string{"write", "reserve"} {
+				add(RCase{Pre: [][2]int{pre}, Prod: []ROp{{K: k, N: free + 2000, M: free + 2000}}, Closer: closers})
+			}
+			add(RCase{Pre: [][2]int{pre}, Prod: []ROp{{K: "readfrom", Chunks: []int{100, 100}}}, Closer: closers})
+			// a consumer step that frees too little before it goes away
+			add(RCase{Pre: [][2]int{pre}, Prod: []ROp{{K: "write", N: free + 2000, M: free + 2000}}, Tail: []ROp{{K: "read", N: 500}}, Closer: closers})
+		}
+		// consumer blocked: ring empty / too little data
+		for _, pre := range [][2]int{{0, 0}, {64, 25}, {9000, 9000}} {
+			avail := pre[0] - pre[1]
+			add(RCase{Pre: [][2]int{pre}, Tail: []ROp{{K: "wait", N: avail + 100}}, Closer: closers})
+			if avail == 0 {
+				add(RCase{Pre: [][2]int{pre}, Tail: []ROp{{K: "read", N: 10}}, Closer: closers})
+				add(RCase{Pre: [][2]int{pre}, Tail: []ROp{{K: "writeto"}}, Closer: closers})
+			}
+			// a producer step that delivers too little before it goes away
+			add(RCase{Pre: [][2]int{pre}, Prod: []ROp{{K: "write", N: 50, M: 50}}, Tail: []ROp{{K: "wait", N: avail + 100}}, Closer: closers})
+		}
+	}
+	// both sides blocked at once (only Close can end it)
+	add(RCase{Pre: [][2]int{{12000, 0}}, Prod: []ROp{{K: "write", N: 5000, M: 5000}}, Tail: []ROp{{K: "wait", N: 14000}}, Closer: 1})
+	add(RCase{Pre: [][2]int{{12000, 0}}, Prod: []ROp{{K: "reserve", N: 5000, M: 5000}}, Tail: []ROp{{K: "wait", N: 14000}}, Closer: 1})
+	// Close by the blocked side's peer instead of a third goroutine
+	add(RCase{Pre: [][2]int{{size, 0}}, Prod: []ROp{{K: "write", N: 3000, M: 3000}}, Tail: []ROp{{K: "close"}}})
+	add(RCase{Pre: [][2]int{{0, 0}}, Prod: []ROp{{K: "close"}}, Tail: []ROp{{K: "wait", N: 100}}})
+	return out
+}
+
+func TestC15CloseWindows(t *testing.T) {
+	rec := ev.New("C15", "close-windows")
+	defer rec.Flush()
+	judge := func(c RCase) (string, outcome) {
+		o := execute(c)
+		return o.Liveness, o
+	}
+	if rp := ev.LoadReplay(t, "close-windows"); rp != nil {
+		var c RCase
+		json.Unmarshal(rp.Case, &c)
+		if f, o := judge(c); f != "" {
+			p := rec.Violation("-", "schedule", f, c, o)
+			rec.Flush()
+			t.Fatalf("VIOLATION %s replay=%s", f, p)
+		}
+		return
+	} else if ev.Replaying() {
+		t.Skip()
+	}
+	e := ev.GetEnv()
+	capPerConfig := ev.Pick(2500, 60000)
+	exhaustive := true
+	for ci, cfg := range closeWindowConfigs() {
+		if ci%e.Shards != e.Shard {
+			continue
+		}
+		if cfg.Closer >= 2 && ev.Pick(0, 1) == 0 {
+			continue // two concurrent Close calls: thorough tier only
+		}
+		prefix := []int{}
+		runs := 0
+		for {
+			c := cfg
+			c.Choices = append([]int{}, prefix...)
+			f, o := judge(c)
+			runs++
+			if o.Inconclusive != "" {
+				rec.Inconclusive()
+				rec.Class("inconclusive: "+o.Inconclusive, 1)
+			}
+			rec.Case(c, hasClass(o, "peer-ran-while-in-wait-window") || hasClass(o, "peer-ran-while-blocked"), o.Classes...)
+			if f != "" {
+				p := rec.Violation("-", "schedule", f, c, o)
+				rec.Flush()
+				t.Fatalf("VIOLATION %s replay=%s", f, p)
+			}
+			// next schedule in depth-first order
+			full := make([]int, len(o.Branch))
+			copy(full, prefix)
+			i := len(full) - 1
+			for i >= 0 && full[i]+1 >= o.Branch[i] {
+				i--
+			}
+			if i < 0 {
+				break
+			}
+			prefix = append(full[:i:i], full[i]+1)
+			if runs >= capPerConfig {
+				exhaustive = false
+				rec.Class("schedule-enumeration-capped", 1)
+				break
+			}
+		}
+		rec.Class(fmt.Sprintf("config-%02d-schedules", ci), int64(runs))
+	}
+	rec.Exhaustive(exhaustive)
 }
